@@ -30,3 +30,44 @@ def save(ir):
 
 def load(gtirb, data):
     return gtirb.IR.load_protobuf_file(io.BytesIO(data))
+
+
+FOREIGN_TABLES = [
+    ("sequence<acme_record>", b"\x01" + b"\x00" * 7 + b"zz"),
+    ("mapping<string,acme_record>", b"\x01" + b"\x00" * 7 + b"\x01" + b"\x00" * 7 + b"k??"),
+    ("set<acme<int8_t>>", b"\x02" + b"\x00" * 7 + b"ab"),
+    ("tuple<acme_record,int64_t>", b"\x07" * 9),
+    ("variant<acme_record,string>", b"\x00" * 8 + b"!"),
+    ("mapping<UUID,sequence<acme_record>>", b"\x00" * 8),
+    ("acme_record", b"opaque"),
+    ("sequence<int64_t>", b"\x01" + b"\x00" * 7 + b"\x05" + b"\x00" * 7),
+    ("mapping<string,sequence<int64_t>>", b"\x00" * 8),
+]
+
+
+def foreign_activity(gtirb, k):
+    """Another IR of the same process: a file with tables of partly unknown
+    types is loaded, three of its tables are read, and it is saved.  Nothing of
+    this may influence any other IR (the AuxData serializer is process wide).
+    Returns a list of complaints about the foreign IR itself (unknown tables
+    must come back as their bytes)."""
+    from gtirb.proto import IR_pb2
+
+    msg = IR_pb2.IR()
+    data = save(make(gtirb))
+    msg.ParseFromString(data[8:])
+    for i, (tname, raw) in enumerate(FOREIGN_TABLES):
+        msg.aux_data["f%d" % i].type_name = tname
+        msg.aux_data["f%d" % i].data = raw
+    ir = load(gtirb, data[:8] + msg.SerializeToString())
+    n = len(FOREIGN_TABLES)
+    for j in range(3):
+        i = (k + 4 * j) % n
+        try:
+            ir.aux_data["f%d" % i].data
+        except Exception:  # noqa
+            pass
+    try:
+        save(ir)
+    except Exception:  # noqa
+        pass
